@@ -18,7 +18,7 @@ use crate::{
     CompileTimeError, TypedExpr, TypedProgram,
     ast::{Expr, ExprEnum, Type, Variant, VariantExprEnum},
     check::{Defs, TopLevelTypes, TypeError, TypedFns, check_type},
-    circuit::EvalPanic,
+    circuit::{EvalPanic, USIZE_BITS},
     compile::{
         self, enum_max_size, enum_tag_number, enum_tag_size, signed_to_bits, unsigned_to_bits,
     },
@@ -365,7 +365,8 @@ impl Literal {
                     .iter()
                     .map(|(k, v)| (k.clone(), *v as u64))
                     .collect();
-                let size = compile::resolve_const_expr_unsigned(size_expr, &const_sizes_u64);
+                let size =
+                    compile::resolve_const_expr_unsigned(size_expr, &const_sizes_u64, USIZE_BITS);
                 let ty_size = ty.size_in_bits_for_defs(checked, const_sizes);
                 let mut elems = vec![];
                 let mut i = 0;
